@@ -2,6 +2,8 @@
 
 package queues
 
+import "sync"
+
 // C02 — ring buffer against a reference FIFO.
 
 // VH_C02_ring_from_init: a symbolic sequence of L operations from New(size)
@@ -164,4 +166,92 @@ func VH_C02_ring_step() {
 			vrtReach("popmany")
 		}
 	}
+}
+
+// VH_C02_ring_concurrent: the REAL ring under concurrent use, explored by
+// Engine A in preemptive mode (every schedule with at most `preempt`
+// preemptions at sync / atomic operations; at blocking points every runnable
+// goroutine is tried). Two producers push (one of them two items in program
+// order) into a ring of initial size `size` that holds a symbolic number of
+// earlier items at a symbolic wrap position, optionally while a consumer pops.
+// Every accepted item comes out exactly once, never an empty slot, earlier
+// items first, each producer's items in its program order.
+func VH_C02_ring_concurrent() {
+	size := int64(vrtParam("size", 2))
+	q := New(size)
+	pre := vrtChoose(int(size) + 1)
+	for i := 0; i < pre; i++ {
+		q.Push(100 + i)
+	}
+	pops := vrtChoose(pre + 1)
+	for i := 0; i < pops; i++ {
+		v, ok := q.Pop()
+		vrtAssert(ok && v == any(100+i), "sequential-prefix-fifo")
+	}
+	// the pushed values are symbolic (pairwise distinct, distinct from the
+	// earlier items): which value comes out where is decided by the solver
+	a1, a2, b1 := vrtInt(), vrtInt(), vrtInt()
+	vrtAssume(a1 != a2)
+	vrtAssume(a1 != b1)
+	vrtAssume(a2 != b1)
+	vrtAssume(a1 > 110)
+	vrtAssume(a2 > 110)
+	vrtAssume(b1 > 110)
+	var wg sync.WaitGroup
+	var popped []any
+	wg.Add(2)
+	go func() {
+		q.Push(a1)
+		q.Push(a2)
+		wg.Done()
+	}()
+	go func() {
+		q.Push(b1)
+		wg.Done()
+	}()
+	if vrtParam("popper", 0) == 1 {
+		wg.Add(1)
+		go func() {
+			for i := 0; i < 2; i++ {
+				if v, ok := q.Pop(); ok {
+					popped = append(popped, v)
+				}
+			}
+			wg.Done()
+		}()
+	}
+	wg.Wait()
+	for {
+		v, ok := q.Pop()
+		if !ok {
+			break
+		}
+		popped = append(popped, v)
+		vrtAssert(len(popped) <= pre-pops+3, "no-extra-item")
+	}
+	vrtAssert(q.Length() == 0, "length-zero-after-drain")
+	vrtAssert(len(popped) == pre-pops+3, "every-accepted-item-comes-out-exactly-once")
+	n1, n2, n3, p1, p2 := 0, 0, 0, -1, -1
+	for i, v := range popped {
+		x, isInt := v.(int)
+		vrtAssert(isInt, "no-empty-slot-handed-out")
+		if i < pre-pops {
+			vrtAssert(x == 100+pops+i, "earlier-items-first-in-order")
+		}
+		// branch-free so that the engine builds one term per run instead of
+		// forking on every comparison
+		e1, e2, e3 := vhB2I(x == a1), vhB2I(x == a2), vhB2I(x == b1)
+		n1, n2, n3 = n1+e1, n2+e2, n3+e3
+		p1, p2 = p1+e1*(i+1), p2+e2*(i+1)
+	}
+	vrtAssert(n1 == 1 && n2 == 1 && n3 == 1, "every-accepted-item-comes-out-exactly-once")
+	vrtAssert(p1 < p2, "per-producer-order")
+	vrtReach("drained")
+}
+
+func vhB2I(b bool) int {
+	if b {
+		return 1
+	}
+	return 0
 }
